@@ -120,6 +120,21 @@ func (h H) openStorageRebuild(rule string) {
 				}
 				return false
 			}, nil, func(in ssa.Instruction) bool { return h.P.IsCallTo(in, reset) })
+			// …nor when it starts after the snapshot (killed inside Log.Reset,
+			// which deletes the segments first to last): the entries between
+			// the snapshot index and the log's first one are nowhere (F29)
+			r3 := fi.MustCrossOrPass(s.Instr, func(a core.Atom) bool {
+				for _, f := range snapIndexForms(stg) {
+					if a.Implies(core.MkAtom("(*log.Log).PrevIndex("+stg+".log)", "<=", f)) {
+						return true
+					}
+					if a.Implies(core.BoolAtom("(*log.Log).Contains("+stg+".log, "+f+")", true)) {
+						return true
+					}
+				}
+				return false
+			}, nil, func(in ssa.Instruction) bool { return h.P.IsCallTo(in, reset) })
+			h.C.Check(rule+" log-contiguous-with-snapshot", "openStorage store lastLogIndex := "+v, r3.OK, h.pos(s.Instr), "on restart a log that starts after the latest snapshot's index is kept (a process killed inside Log.Reset leaves such a suffix): the entries in between exist nowhere, openStorage fails reading them or the next append trips an assertion: "+r3.Witness)
 			h.C.Check(rule+" log-agrees-with-snapshot", "openStorage store lastLogIndex := "+v, r2.OK, h.pos(s.Instr), "on restart a log that contains the latest snapshot's index is kept without comparing its term there with the snapshot's (a crash between snapshotSink.done and clearLog in the install handler leaves a log whose entries up to the snapshot index conflict with the committed ones; they stay in the log and a later leadership serves them to followers): "+r2.Witness)
 			h.C.Check(rule+" log-not-behind-snapshot", "openStorage store lastLogIndex := "+v, r.OK, h.pos(s.Instr), "on restart the last log entry is adopted as the node's last index even when it lies below the latest snapshot index (a crash between snapshotSink.done and clearLog leaves exactly that state): the log is then not contiguous with the snapshot and the next append trips appendEntry's assertion")
 		}
